@@ -1,6 +1,6 @@
 Require Import ExtrOcamlBasic.
 Require Import GV.Model.C09_io.
-Definition vp_run := c09_run.
-Definition vp_check := c09_check.
-Definition vp_nontriv := c09_nontriv.
+Definition vp_run := c09x_run.
+Definition vp_check := c09x_check.
+Definition vp_nontriv := c09x_nontriv.
 Extraction "model.ml" vp_run vp_check vp_nontriv.
